@@ -80,6 +80,24 @@ func vfC24Values() []vfC24Value {
 	}
 }
 
+// vfC24URLValues are value forms that only make sense for the URL-encoded
+// keys (Cert, URI, By). The AST decodes AFTER unquoting: a percent-encoded
+// backslash or quote is DATA and must never be re-read as quoting syntax.
+func vfC24URLValues() []vfC24Value {
+	v := func(kind, raw, decoded string) vfC24Value {
+		return vfC24Value{kind: kind, raw: raw, plain: []string{raw, decoded}, urlenc: []string{decoded}}
+	}
+	return []vfC24Value{
+		v("quoted-pct-backslash", `"a%5Cb"`, `a\b`),
+		v("bare-pct-quotes", `%22x%22`, `"x"`),
+		// thorough only:
+		v("quoted-pct-delims", `"a%2Cb%3Bc"`, `a,b;c`),
+		v("quoted-pct-backslash-quote", `"a%5C%22b"`, `a\"b`),
+		v("bare-pct-backslash-delims", `a%5Cb%2Cc%3Bd`, `a\b,c;d`),
+		v("quoted-pct-quotes", `"%22x%22"`, `"x"`),
+	}
+}
+
 var vfC24Keys = []string{"Hash", "Subject", "URI", "By", "DNS", "Cert", "Chain"} // Chain: a key the struct does not carry
 
 func vfC24URLEncoded(key string) bool { return key == "Cert" || key == "URI" || key == "By" }
@@ -109,8 +127,9 @@ func vfC24Header(elems []vfC24Elem) string {
 
 // vfC24ChooseElem picks nPairs pairs. A key other than DNS is used at most
 // once per element (what a duplicate means is not stated).
-func vfC24ChooseElem(x *venum.X, nPairs, nKinds int, label string) vfC24Elem {
-	vals := vfC24Values()[:nKinds]
+func vfC24ChooseElem(x *venum.X, nPairs, nKinds, nURLKinds int, label string) vfC24Elem {
+	common := vfC24Values()[:nKinds]
+	urlOnly := vfC24URLValues()[:nURLKinds]
 	used := map[string]bool{}
 	var e vfC24Elem
 	for j := 0; j < nPairs; j++ {
@@ -122,6 +141,10 @@ func vfC24ChooseElem(x *venum.X, nPairs, nKinds int, label string) vfC24Elem {
 		}
 		k := avail[x.Choose(len(avail), fmt.Sprintf("%s.k%d", label, j))]
 		used[k] = true
+		vals := common
+		if vfC24URLEncoded(k) {
+			vals = append(append([]vfC24Value{}, common...), urlOnly...)
+		}
 		v := vals[x.Choose(len(vals), fmt.Sprintf("%s.v%d", label, j))]
 		e.pairs = append(e.pairs, vfC24Pair{k, v})
 	}
@@ -404,12 +427,13 @@ func TestVerif_C24(t *testing.T) {
 			total += n
 		}
 		kinds := nKinds
+		urlKinds := venum.QT(2, 6)
 		if total >= 4 {
-			kinds = 7
+			kinds, urlKinds = 7, 2
 		}
 		var elems []vfC24Elem
 		for i, n := range shape {
-			elems = append(elems, vfC24ChooseElem(x, n, kinds, fmt.Sprintf("e%d", i)))
+			elems = append(elems, vfC24ChooseElem(x, n, kinds, urlKinds, fmt.Sprintf("e%d", i)))
 		}
 		hdr := vfC24Header(elems)
 		x.Note("header=%s", hdr)
@@ -564,14 +588,14 @@ func TestVerif_C24(t *testing.T) {
 		noise = noise[:7]
 	}
 	noiseShapes := vfC24Shapes(2)
-	noiseKinds := venum.QT(7, 13)
+	noiseKinds := venum.QT(6, 13)
 	identFirst, _ := MtlsAuthenticateXfcc(MtlsAuthenticateXfccConfig{})
 	identLast, _ := MtlsAuthenticateXfcc(MtlsAuthenticateXfccConfig{SelectElement: "last"})
 	venum.Explore(t, venum.Cfg{Name: "xfcc-noise", Shardable: true}, func(x *venum.X) {
 		shape := noiseShapes[x.Choose(len(noiseShapes), "shape")]
 		var elems []vfC24Elem
 		for i, n := range shape {
-			elems = append(elems, vfC24ChooseElem(x, n, noiseKinds, fmt.Sprintf("e%d", i)))
+			elems = append(elems, vfC24ChooseElem(x, n, noiseKinds, venum.QT(0, 6), fmt.Sprintf("e%d", i)))
 		}
 		base := vfC24Header(elems)
 		pos := x.Choose(len(base)+1, "pos")
